@@ -244,11 +244,18 @@ Proof.
   - unfold do_api_revoke. repeat dm; cbn [fst]; try apply ext_refl.
     + eapply ext_trans; [apply ext_upd_revoke|apply ext_revoke_derived].
     + apply ext_upd_revoke.
-  - destruct (nth_error (grants s) gi); cbn [fst]; [|apply ext_refl]. unfold revoke_grant_at.
+  - (* RevokeGrant *) destruct (nth_error (grants s) gi) as [g|]; cbn [fst]; [|apply ext_refl].
+    destruct (g_removed g); cbn [fst]; [apply ext_refl|]. unfold revoke_grant_at.
     eapply ext_trans; [|apply (ext_map_revoke (fun t => Nat.eqb (t_grant t) gi))]. now apply ext_same_toks.
-  - destruct (nth_error (grants s) gi) as [g|]; cbn [fst]; [|apply ext_refl]. unfold revoke_branch.
+  - (* RevokeClient *) destruct (nth_error (grants s) gi) as [g|]; cbn [fst]; [|apply ext_refl].
+    destruct (existsb (live_branch g) (grants s)); cbn [fst]; [|apply ext_refl]. unfold revoke_branch.
     intros k t H. unfold tget in *; cbn. rewrite nth_error_map, H; cbn.
     destruct (in_branch g s (t_grant t)); eauto using tok_le_refl, tok_le_revoke.
+  - (* RemoveGrant *) destruct (nth_error (grants s) gi); cbn [fst]; [|apply ext_refl]. now apply ext_same_toks.
+  - (* RevokeUser *) destruct (nth_error (grants s) gi) as [g|]; cbn [fst]; [|apply ext_refl].
+    destruct (existsb (live_user g) (grants s)); cbn [fst]; [|apply ext_refl]. unfold revoke_user.
+    intros k t H. unfold tget in *; cbn. rewrite nth_error_map, H; cbn.
+    destruct (in_user g s (t_grant t)); eauto using tok_le_refl, tok_le_revoke.
   - now apply ext_same_toks.
 Qed.
 
